@@ -31,6 +31,9 @@ def main():
     n = 1200 if thorough else 150
     K.correspondence(rep, "arc", n, 12, tag="c08")
     K.correspondence(rep, "star", n, 8, tag="c08", maxdigits=30)
+    import corr_kinds  # noqa: F401  (store-backed node classes as hubs of typed stars: their own type filters)
+    K.correspondence(rep, "kind", n, 8, tag="c08", maxdigits=30)
+    corr_kinds.monitor_c08_kinds(rep, 800 if thorough else 120)
     S.monitor_c18(rep, 1500 if thorough else 200, pid="C08")
     mon_route.run(rep, thorough)
     C.apply_known(rep, PID, {})
